@@ -19,7 +19,7 @@ Reference, from the statement and the `cylc play` documentation only:
 """
 from __future__ import annotations
 
-from typing import Dict, List, Optional, Set, Tuple
+from typing import List, Optional, Set, Tuple
 
 from ..core import HarnessError
 from .catalogue import RefGraph, atoms, r_expr
